@@ -476,7 +476,19 @@ func ruleC12Sites(cx *Ctx) {
 	}
 	cx.R.Check(nw >= 3, rule, "cache", "deadline stores found", "-", fmt.Sprintf("%d", nw))
 	lockOrderProg = cx.P
-	quiet := []string{"GetEntryQuietly", "Invalidate", "InvalidateAll", "CleanUp", "maintenance", "evictNode", "runTask", "SetMaximum", "GetMaximum", "WeightedSize", "EstimatedSize", "All", "Keys", "Values", "Hottest", "Coldest", "Stats", "periodicCleanUp"}
+	// the quiet read shares its lookup helper with the counted reads (a flag decides): decided on its path summaries
+	if r := cx.runOp(rule, opSpec{"GetEntryQuietly", "cache", "GetEntryQuietly", nil, "getEntryQuietly", nil}); r != nil {
+		a := newAgg(cx, rule, funcName(r.fn), cx.P.Pos(r.fn.Pos()))
+		for _, o := range r.outs {
+			if o.Cut {
+				continue
+			}
+			n := len(allEvents(o, "SetExpiresAt")) + len(allEvents(o, "CASExpiresAt")) + len(allEvents(o, "SetRefreshableAt")) + len(allEvents(o, "CASRefreshableAt"))
+			a.check("reaches no deadline store", n == 0, "a quiet read never moves a deadline", fmt.Sprintf("%d store(s)", n), o)
+		}
+		a.flush()
+	}
+	quiet := []string{"Invalidate", "InvalidateAll", "CleanUp", "maintenance", "evictNode", "runTask", "SetMaximum", "GetMaximum", "WeightedSize", "EstimatedSize", "All", "Keys", "Values", "Hottest", "Coldest", "Stats", "periodicCleanUp"}
 	for _, m := range quiet {
 		fn := cx.P.Func("", "cache", m)
 		if fn == nil {
